@@ -269,3 +269,20 @@ with `inbound_request_timeout` and every outbound call in the outbound layer wit
 theorem C11_layers_are_translated : Gen.timeoutShapeChecked = true := rfl
 
 end Anemo
+
+namespace Anemo
+
+/-- **A zero deadline is a deadline**: the header `0` is not "absent" - whatever the local default (none
+included), the effective deadline is 0, so a handler that needs any time at all is cut off -/
+theorem C11_zero_header_is_zero (default? : Option Nat) :
+    effective default? (headerTimeout (some [0x30])) = some 0 ∧
+    ∀ d, 0 < d → race (effective default? (headerTimeout (some [0x30]))) d = .cutOff := by
+  have h0 : headerTimeout (some [0x30]) = some 0 := by decide
+  have he : effective default? (headerTimeout (some [0x30])) = some 0 := by
+    rw [h0]; cases default? <;> simp [effective]
+  refine ⟨he, ?_⟩
+  intro d hd
+  rw [he]
+  simp [race]; omega
+
+end Anemo
